@@ -19,6 +19,15 @@ def item_case(doc, ctor, widths, numbers, extra=None):
     return Case("item", text_tokens(text) + [ctor] + list_tokens(widths) + list_tokens(numbers), m)
 
 
+def itemx_case(doc, ctor, widths, numbers, extra=None):
+    """like item_case, for the op that also dumps the constructor's fields so that the Pub model can be run (posts and actors)"""
+    text = jsongen.to_text(doc)
+    m = {"json": text[:4000], "ctor": ctor, "widths": widths, "numbers": numbers, "size": len(text)}
+    if extra:
+        m.update(extra)
+    return Case("itemx", text_tokens(text) + [ctor] + list_tokens(widths) + list_tokens(numbers) + jsongen.to_tokens(doc), m)
+
+
 def nest_depth(html, tags=("blockquote", "ul", "h1", "h2", "h3", "h4", "h5", "h6")):
     import re
     depth = best = 0
